@@ -56,6 +56,7 @@ func (l *URIHdrsLst) More() bool {
 // Init initializes the parsed headers list with a headers place-holder
 // array.
 func (l *URIHdrsLst) Init(hbuf []URIHdr) {
+	l.Reset() // an initialized list is an empty list
 	l.Hdrs = hbuf
 }
 
